@@ -168,3 +168,90 @@ func (ex *exec) blockOrTimeout(what string, cond func() bool) bool {
 	g.what = ""
 	return true
 }
+
+// ---------------------------------------------------------------------
+// reflect.DeepEqual on the engine's own values (dynamic types are concrete;
+// scalar leaves may be symbolic: the result is then a term).
+
+func (ex *exec) deepEq(t types.Type, x, y value, depth int) *Term {
+	if depth > 64 {
+		ex.unsupported("reflect.DeepEqual: structure too deep")
+	}
+	if xi, ok := x.(iface); ok {
+		yi, ok2 := y.(iface)
+		if !ok2 {
+			return tFalse
+		}
+		if xi.t == nil || yi.t == nil {
+			if xi.t == nil && yi.t == nil {
+				return tTrue
+			}
+			return tFalse
+		}
+		if !sameType(xi.t, yi.t) {
+			return tFalse
+		}
+		return ex.deepEq(xi.t, xi.v, yi.v, depth+1)
+	}
+	switch u := t.Underlying().(type) {
+	case *types.Pointer:
+		px, _ := x.(*value)
+		py, _ := y.(*value)
+		if px == nil || py == nil {
+			if px == nil && py == nil {
+				return tTrue
+			}
+			return tFalse
+		}
+		if px == py {
+			return tTrue
+		}
+		return ex.deepEq(u.Elem(), *px, *py, depth+1)
+	case *types.Struct:
+		sx, sy := x.(structure), y.(structure)
+		acc := tTrue
+		for i := 0; i < u.NumFields(); i++ {
+			acc = tAnd(acc, ex.deepEq(u.Field(i).Type(), sx[i], sy[i], depth+1))
+		}
+		return acc
+	case *types.Array:
+		ax, ay := x.(array), y.(array)
+		acc := tTrue
+		for i := range ax {
+			acc = tAnd(acc, ex.deepEq(u.Elem(), ax[i], ay[i], depth+1))
+		}
+		return acc
+	case *types.Slice:
+		sx, _ := x.([]value)
+		sy, _ := y.([]value)
+		if (sx == nil) != (sy == nil) || len(sx) != len(sy) {
+			return tFalse
+		}
+		acc := tTrue
+		for i := range sx {
+			acc = tAnd(acc, ex.deepEq(u.Elem(), sx[i], sy[i], depth+1))
+		}
+		return acc
+	case *types.Map:
+		mx, _ := x.(*gmap)
+		my, _ := y.(*gmap)
+		if (mx == nil) != (my == nil) || mx.len() != my.len() {
+			return tFalse
+		}
+		acc := tTrue
+		for _, e := range mx.liveEntries() {
+			f := my.find(ex, e.k)
+			if f == nil {
+				return tFalse
+			}
+			acc = tAnd(acc, ex.deepEq(u.Elem(), e.v, f.v, depth+1))
+		}
+		return acc
+	case *types.Signature:
+		if x == nil && y == nil {
+			return tTrue
+		}
+		return tFalse
+	}
+	return boolTerm(ex.eqv(t, x, y))
+}
